@@ -92,19 +92,25 @@ Lemma get_scale_rows M m idx : inb (shape M) idx ->
   get d (scale_rows Op M m) idx = get d M idx *r nth (nth 0 idx 0) (data m) d.
 Proof. intros H. unfold scale_rows. now rewrite get_tabulate. Qed.
 
-Lemma apply_w_props w M : wf M -> wf (apply_w Op w M) /\ shape (apply_w Op w M) = shape M /\
-  forall idx, inb (shape M) idx -> get d (apply_w Op w M) idx = get d M idx *r wv w (nth 1 idx 0).
+(* weights with exactly one entry per column / mask with one entry per row (any shape: the code reshapes them) *)
+Definition w_ok (w : option (tensor F)) (R : nat) : Prop := forall w0, w = Some w0 -> prod (shape w0) = R.
+Definition mask_ok (m : option (tensor F)) (rows : nat) : Prop := forall m0, m = Some m0 -> prod (shape m0) = rows.
+
+Lemma apply_w_props w M : wf M -> w_ok w (ncols M) -> exists M', apply_w Op w M = Ok M' /\ wf M' /\ shape M' = shape M /\
+  forall idx, inb (shape M) idx -> get d M' idx = get d M idx *r wv w (nth 1 idx 0).
 Proof.
-  intros W. destruct w as [w|]; cbn [apply_w wv].
-  - split; [apply wf_tabulate | split; [reflexivity|]]. intros. now apply get_scale_cols.
-  - split; [exact W | split; [reflexivity|]]. intros. ring.
+  intros W Hw. destruct w as [w|]; cbn [apply_w wv].
+  - rewrite (Hw w eq_refl), Nat.eqb_refl. eexists. split; [reflexivity|].
+    split; [apply wf_tabulate | split; [reflexivity|]]. intros. now apply get_scale_cols.
+  - exists M. split; [reflexivity|]. split; [exact W | split; [reflexivity|]]. intros. ring.
 Qed.
-Lemma apply_mask_props m M : wf M -> wf (apply_mask Op m M) /\ shape (apply_mask Op m M) = shape M /\
-  forall idx, inb (shape M) idx -> get d (apply_mask Op m M) idx = get d M idx *r maskv m (nth 0 idx 0).
+Lemma apply_mask_props m M : wf M -> mask_ok m (nrows M) -> exists M', apply_mask Op m M = Ok M' /\ wf M' /\ shape M' = shape M /\
+  forall idx, inb (shape M) idx -> get d M' idx = get d M idx *r maskv m (nth 0 idx 0).
 Proof.
-  intros W. destruct m as [m|]; cbn [apply_mask maskv].
-  - split; [apply wf_tabulate | split; [reflexivity|]]. intros. now apply get_scale_rows.
-  - split; [exact W | split; [reflexivity|]]. intros. ring.
+  intros W Hm. destruct m as [m|]; cbn [apply_mask maskv].
+  - rewrite (Hm m eq_refl), Nat.eqb_refl. eexists. split; [reflexivity|].
+    split; [apply wf_tabulate | split; [reflexivity|]]. intros. now apply get_scale_rows.
+  - exists M. split; [reflexivity|]. split; [exact W | split; [reflexivity|]]. intros. ring.
 Qed.
 
 Lemma kr_valid_mats R M0 rest : mats R (M0 :: rest) -> kr_valid (M0 :: rest) = true.
@@ -117,36 +123,41 @@ Qed.
 (* ================================================================ khatri_rao (core backend) *)
 Theorem khatri_rao_spec (Ms : list (tensor F)) (w mask : option (tensor F)) (skip : option nat) (R : nat) :
   let Ms' := skipl skip Ms in
-  Ms' <> [] -> mats R Ms' ->
+  Ms' <> [] -> mats R Ms' -> w_ok w R -> mask_ok mask (prod (map nrows Ms')) ->
   exists K, khatri_rao Op Ms w mask skip = Ok K /\ wf K /\ shape K = [prod (map nrows Ms'); R] /\
     forall is_ r, inb (map nrows Ms') is_ -> r < R ->
       get d K [ravel (map nrows Ms') is_; r]
       = kr_entry Ms' is_ r *r wv w r *r maskv mask (ravel (map nrows Ms') is_).
 Proof.
-  intros Ms' Hne Hm. unfold khatri_rao. fold Ms'. destruct Ms' as [|M0 rest]; [congruence|]. clear Hne.
+  intros Ms' Hne Hm Hw Hmask. unfold khatri_rao. fold Ms'. destruct Ms' as [|M0 rest]; [congruence|]. clear Hne.
   inversion Hm as [|? ? [W0 Hs0] Hm']; subst.
-  destruct (apply_w_props w M0 W0) as [Ww [Hsw Hgw]].
+  assert (Hc0 : ncols M0 = R) by (unfold ncols; now rewrite Hs0).
+  destruct (apply_w_props w M0 W0 ltac:(now rewrite Hc0)) as [Mw [Ew [Ww [Hsw Hgw]]]].
   destruct rest as [|M1 rest'].
   - (* a single matrix *)
-    destruct (apply_mask_props mask (apply_w Op w M0) Ww) as [Wm [Hsm Hgm]].
-    exists (apply_mask Op mask (apply_w Op w M0)). split; [reflexivity|]. split; [exact Wm|]. split.
+    assert (Hr0 : nrows Mw = prod (map nrows [M0])).
+    { unfold nrows at 1. rewrite Hsw, Hs0. cbn [nth map]. unfold prod. cbn [fold_right]. now rewrite Nat.mul_1_r. }
+    destruct (apply_mask_props mask Mw Ww ltac:(now rewrite Hr0)) as [K [Em [Wm [Hsm Hgm]]]].
+    exists K. rewrite Ew. cbn [rbind]. split; [exact Em|]. split; [exact Wm|]. split.
     + rewrite Hsm, Hsw, Hs0. cbn [map]. unfold prod. cbn [fold_right]. now rewrite Nat.mul_1_r.
     + intros is_ r Hin Hr. cbn [map] in *. destruct is_ as [|i [|? ?]]; cbn [inb] in Hin; try tauto. destruct Hin as [Hi _].
       rewrite ravel1, kr_entry_cons, kr_entry_nil.
       rewrite Hgm by (rewrite Hsw, Hs0; simpl; auto). rewrite Hgw by (rewrite Hs0; simpl; auto). cbn [nth]. ring.
   - set (rest := M1 :: rest') in *.
-    rewrite (kr_valid_mats R M0 rest Hm).
-    assert (Hsa : shape (apply_w Op w M0) = [nrows M0; R]) by congruence.
-    destruct (kr_fold_shape R rest (apply_w Op w M0) (nrows M0) Hsa Ww Hm') as [HsK WK].
-    destruct (apply_mask_props mask _ WK) as [Wm [Hsm Hgm]].
-    eexists. split; [reflexivity|]. split; [exact Wm|]. split.
+    rewrite (kr_valid_mats R M0 rest Hm). rewrite Ew. cbn [rbind].
+    assert (Hsa : shape Mw = [nrows M0; R]) by congruence.
+    destruct (kr_fold_shape R rest Mw (nrows M0) Hsa Ww Hm') as [HsK WK].
+    assert (HrK : nrows (fold_left (kr_step Op) rest Mw) = prod (map nrows (M0 :: rest))).
+    { unfold nrows at 1. rewrite HsK. reflexivity. }
+    destruct (apply_mask_props mask _ WK ltac:(now rewrite HrK)) as [K [Em [Wm [Hsm Hgm]]]].
+    exists K. split; [exact Em|]. split; [exact Wm|]. split.
     + rewrite Hsm, HsK. reflexivity.
     + intros is_ r Hin Hr. cbn [map] in Hin. destruct is_ as [|i is_]; [contradiction|]. destruct Hin as [Hi Hin].
       cbn [map ravel].
       assert (Hrow : i * prod (map nrows rest) + ravel (map nrows rest) is_ < nrows M0 * prod (map nrows rest)).
       { pose proof (ravel_lt _ _ Hin). nia. }
       rewrite Hgm by (rewrite HsK; simpl; auto). cbn [nth].
-      rewrite (kr_fold_get R r Hr rest (apply_w Op w M0) (nrows M0)) by auto.
+      rewrite (kr_fold_get R r Hr rest Mw (nrows M0)) by auto.
       rewrite Hgw by (rewrite Hs0; simpl; auto). cbn [nth]. rewrite kr_entry_cons. ring.
 Qed.
 
@@ -241,14 +252,14 @@ Qed.
 
 Theorem mttkrp_spec (T : tensor F) (w : option (tensor F)) (fs : list (tensor F)) (k R : nat) :
   wf T -> k < ndim T -> 0 < prod (shape T) -> 0 < R ->
-  map nrows fs = shape T -> mats R fs -> 2 <= ndim T ->
+  map nrows fs = shape T -> mats R fs -> 2 <= ndim T -> w_ok w R ->
   exists Mt, mttkrp Op T w fs k = Ok Mt /\ wf Mt /\ shape Mt = [nth k (shape T) 0; R] /\
     forall i r, i < nth k (shape T) 0 -> r < R ->
       get d Mt [i; r] =
       ssum Op (remove_nth k (shape T))
         (fun ridx => get d T (insert_at k i ridx) *r rconj Op (kr_entry (remove_nth k fs) ridx r *r wv w r)).
 Proof.
-  intros WT Hk Hpos HR Hrows Hm Hnd. unfold ndim in *.
+  intros WT Hk Hpos HR Hrows Hm Hnd Hw. unfold ndim in *.
   set (fs' := remove_nth k fs).
   assert (Hlen : length fs = length (shape T)) by (rewrite <- Hrows; now rewrite map_length).
   assert (Hrows' : map nrows fs' = remove_nth k (shape T)).
@@ -258,7 +269,7 @@ Proof.
   assert (Hm' : mats R fs').
   { unfold mats, fs' in *. rewrite Forall_forall in *. intros M HM. apply Hm. clear -HM. revert k HM.
     induction fs as [|f fs IH]; intros [|k] HM; simpl in *; auto. destruct HM; auto. right. eapply IH; eauto. }
-  destruct (khatri_rao_spec fs w None (Some k) R Hne Hm') as [K [HK [WK [HsK HgK]]]].
+  destruct (khatri_rao_spec fs w None (Some k) R Hne Hm' Hw ltac:(intros m0 E; discriminate E)) as [K [HK [WK [HsK HgK]]]].
   cbn [skipl] in HsK, HgK. fold fs' in HsK, HgK. rewrite Hrows' in HsK, HgK.
   set (sk := nth k (shape T) 0). set (rest := remove_nth k (shape T)) in *.
   assert (Hprod : sk * prod rest = prod (shape T)) by (apply prod_remove; exact Hk).
